@@ -188,6 +188,72 @@ def run(ctx, report):
     else:
         R6.ok('ppc_mn.asm', sample='no python-2 idiom in ppc_mnemo_metaclass.asm')
 
+    # ---------------------------------------------------------------- D7 branch family: render -> assemble reproduces the fields
+    R7 = report.rule('C18.D7', 'branch family: the rendered text is accepted by exactly its own class and assembles back to the same BO/BI/AA/LK', floor=12)
+    branch_trip_rule(ctx, R7, M, mod)
+
+
+def branch_trip_rule(ctx, R, M, mod):
+    import re
+    from ..ppcbranch import BranchTrip, Raised
+    T = BranchTrip(ctx, M)
+    tests = list(T.cls_objs['ppc_bc'].all_tests)
+    thorough = ctx.tier == 'thorough'
+
+    def kind(name):
+        base = re.sub('(LA|AL|L|A)$', '', name)
+        for t in tests:
+            if base.endswith(t):
+                return base[:-len(t)] + 'cc'
+        return base
+    stats = {}
+    n_eval = 0
+    for cname, extra in (('ppc_bc', {'bd': 4}), ('ppc_bctr', {'opc10': 16}), ('ppc_bctr', {'opc10': 528})):
+        if cname not in M.classes:
+            raise AnalysisError('class %s not found' % cname)
+        for bo in range(32):
+            for bi in (range(32) if thorough else (0, 1, 2, 3, 4, 7, 30, 31)):
+                for aa in ((0, 1) if cname == 'ppc_bc' else (0,)):
+                    for lk in (0, 1):
+                        f = dict(bo=bo, bi=bi, aa=aa, lk=lk, **extra)
+                        n_eval += 1
+                        name, args = T.render(cname, f)
+                        k0 = (cname, kind(name))
+                        st = stats.setdefault(k0, {'n': 0, 'bad': {}})
+                        st['n'] += 1
+                        try:
+                            acc = T.accepting_classes(name)
+                            if acc != [cname]:
+                                st['bad'].setdefault('classes:%s' % ','.join(acc), []).append((f, name, args, None))
+                                continue
+                            o = T.assemble(cname, name, args)
+                        except Raised as e:
+                            st['bad'].setdefault('raises:%s' % e.exc_name, []).append((f, name, args, None))
+                            continue
+                        got = dict((k, getattr(o, k)) for k in f)
+                        for k in f:
+                            if got[k] != f[k]:
+                                st['bad'].setdefault('field:%s' % k, []).append((f, name, args, got))
+    R.note('%d field combinations rendered and assembled back (evaluated from the source of getname/args2str/check_mnemo/parse_opts/parse_args)' % n_eval)
+    for (cname, kd), st in sorted(stats.items()):
+        inst = '%s %s' % (cname, kd)
+        if not st['bad']:
+            R.ok(inst, sample='%s: %d combinations come back' % (inst, st['n']))
+            continue
+        for what, lst in sorted(st['bad'].items()):
+            f, name, args, got = lst[0]
+            word = 'BO=%#x BI=%d AA=%d LK=%d' % (f['bo'], f['bi'], f['aa'], f['lk'])
+            if what.startswith('field:'):
+                fld = what[6:]
+                msg = '%s: %d of %d combinations do not get their %s back, e.g. %s renders as %r and assembles to %s=%#x' % (
+                    inst, len(lst), st['n'], fld.upper(), word, (name + ' ' + ', '.join(args)).strip(), fld.upper(), got[fld])
+            elif what.startswith('raises:'):
+                msg = '%s: the assembler raises %s on %d of %d rendered texts, e.g. %r (%s)' % (inst, what[7:], len(lst), st['n'], (name + ' ' + ', '.join(args)).strip(), word)
+            else:
+                msg = '%s: %d of %d rendered mnemonics are accepted by %s instead of exactly %s, e.g. %r (%s)' % (
+                    inst, len(lst), st['n'], what[8:] or 'no class', cname, name, word)
+            R.violation(inst + ':' + what, 'branch-trip:%s:%s:%s' % (cname, kd, what), msg, where(mod, mod.cls(cname)))
+
 
 def audit_pair(mod, bname, fi):
     """An overriding parse/bin pair is accepted when parse shifts left by k (optionally sign-extending) and bin shifts
@@ -433,6 +499,9 @@ def check_arch(M, mod, R, cname, ci, ref):
 
 
 MUTANTS = [
+    ('bctr-cr-ignored', 'miasmx/arch/ppc_arch.py', "        if args:\n            tmp = str2cr(args.pop())", "        if len(args) >1:\n            tmp = str2cr(args.pop())", 'C18.D7'),
+    ('bc-AL-order', 'miasmx/arch/ppc_arch.py', "        if self.lk:\n            name+='L'\n        if self.aa:\n            name+='A'\n", "        if self.aa:\n            name+='A'\n        if self.lk:\n            name+='L'\n", 'C18.D7'),
+    ('cond-whitelist-arm', 'miasmx/arch/ppc_arch.py', "                if not is_symbol(a) or a in ppc_bc.all_tests:", "                if not is_symbol(a) or a in bm_cond.n:", 'C18.D7'),
     ('name2str-unguarded', 'miasmx/arch/ppc_arch.py', "        if self.ra == 0 and len(self.namestr) > 1:", "        if self.ra == 0:", 'C18.D4'),
     ('addc-8', 'miasmx/arch/ppc_arch.py', "namsdct = {'ADD':266, 'ADDC':10,", "namsdct = {'ADD':266, 'ADDC':8,", 'C18.D'),
     ('rb-width', 'miasmx/arch/ppc_arch.py', "class bm_rb(bm):\n    l = 5", "class bm_rb(bm):\n    l = 4", 'C18.D1'),
